@@ -20,17 +20,27 @@ THOROUGH_RANDOM = 40000
 EXH_LEN = 7
 EXH_LEN_HOLD = 6
 T_EXH = 2000
+EXH_RAW = 42      # the value requested in the exhaustive words (stale 10, third value 77)
 
 
 # ----------------------------------------------------------------------------- cases
-def mk_case(kind, tracking, hold, late, initial, start, events, label, via_device=False):
+def mk_case(kind, tracking, hold, late, initial, start, events, label, via_device=False, display=None):
+    """kind = target id of harness/setm.py (the four base ids are the kind names)"""
     return dict(kind=kind, tracking=bool(tracking), hold=bool(hold), late=bool(late), initial=list(initial),
-                start=start, events=list(events), label=label, via_device=bool(via_device))
+                start=start, events=list(events), label=label, via_device=bool(via_device), display=display)
 
 
 def parse_corpus_line(ln):
+    """<target id> <tracking> <hold> <late> <value> <min> <max> <start> [d=<display value as JSON>] <event>*"""
+    import json
     w = ln.split()
-    return mk_case(w[0], w[1] == "1", w[2] == "1", w[3] == "1", (int(w[4]), int(w[5]), int(w[6])), int(w[7]), w[8:], "corpus")
+    display = None
+    ev = w[8:]
+    if ev and ev[0].startswith("d="):
+        display = json.loads(ev[0][2:])
+        ev = ev[1:]
+    return mk_case(w[0], w[1] == "1", w[2] == "1", w[3] == "1", (int(w[4]), int(w[5]), int(w[6])), int(w[7]), ev, "corpus",
+                   False, display)
 
 
 def model_line(c):
@@ -46,7 +56,8 @@ def judge_line(c, groups):
 
 def run_impl(c):
     groups, now, loc = setm.run_history(c["kind"], c["tracking"], c["hold"], tuple(c["initial"]), c["events"],
-                                        start_ms=c["start"], late=c["late"], via_device=c.get("via_device", False))
+                                        start_ms=c["start"], late=c["late"], via_device=c.get("via_device", False),
+                                        display=c.get("display"))
     return groups, now, loc
 
 
@@ -67,12 +78,69 @@ def rand_triple(rng):
     return (rng.randint(0, 255), rng.randint(0, 255), rng.randint(0, 254))
 
 
-def random_case(rng):
-    kind = rng.choice(setm.KINDS)
+SCALED_TARGETS = ("ecomax:85", "ecomax:88", "ecomax:108", "mixer1:5", "mixer0:6", "thermostat1:1", "thermostat0:8")
+OTHER_TARGETS = ("ecomax:18", "mixer1:0", "thermostat1:0", "schedule:heating_circulation:p", "schedule:mixer_10:p",
+                 "schedule:mixer_1:p", "schedule:intake_summer:s", "schedule:water_heater_2:p", "schedule:heating:s")
+
+
+def enc_val(v):
+    if isinstance(v, bool):
+        return f"b:{int(v)}"
+    if isinstance(v, int):
+        return f"i:{v}"
+    if isinstance(v, float):
+        n, d = v.as_integer_ratio()
+        return f"f:{n}/{d}"
+    return f"s:{v}"
+
+
+def display_table():
+    """target id -> {raw: [display values whose raw value (Lean `toRaw`, the C17/C06 model) is raw]}.
+    The display -> raw direction is decided by the Lean model, never by the code under test."""
+    cands, lines = [], []
+    for tid in SCALED_TARGETS + ("ecomax:18",):
+        tg = setm.target(tid)
+        ds = []
+        if tg.switch:
+            ds = ["on", "off", True, False, 1, 0]
+        elif (tg.row["mult_num"], tg.row["mult_den"]) != (1, 1):
+            top = 256 if tg.size == 1 else 1200
+            for k in range(top):
+                ds.append(round(k * 0.1, 1))             # 2.4, 0.7 ... what a user types
+                if k % 7 == 0:
+                    ds.append(round(k * 0.1 + 0.04, 2))  # not a multiple of the step
+                if k % 10 == 0:
+                    ds.append(k // 10)                   # plain integers
+        else:                                            # offset row: display = raw - offset
+            for k in range(256):
+                ds.append(k - tg.row["offset"])
+                if k % 5 == 0:
+                    ds.append(float(k - tg.row["offset"]))
+        for d in ds:
+            cands.append((tid, d))
+            lines.append(f"toraw {tg.conv} {enc_val(d)}")
+    out = {}
+    for (tid, d), ans in zip(cands, driver_batch(lines)):
+        if ans.startswith("ok:") and 0 <= int(ans[3:]) <= setm.target(tid).maxraw:
+            out.setdefault(tid, {}).setdefault(int(ans[3:]), []).append(d)
+    return out
+
+
+def random_case(rng, table):
+    r0 = rng.random()
+    tid = rng.choice(setm.BASE_TARGETS) if r0 < 0.45 else rng.choice(SCALED_TARGETS) if r0 < 0.75 else rng.choice(OTHER_TARGETS)
+    tg = setm.target(tid)
+    sched_switch = tg.kind == "schedule" and tg.part == "s"    # range is fixed to 0..1 by the decoder
     tracking = rng.random() < 0.5
     hold = rng.random() < 0.4
     late = rng.random() < 0.5
-    initial = rand_triple(rng)
+
+    def triple():
+        if sched_switch:
+            return (rng.randint(0, 1), 0, 1)
+        return rand_triple(rng)
+
+    initial = triple()
     start = rng.choice([0, 0, 125, 1000, 86400000])
     ev = []
     held = initial
@@ -80,10 +148,12 @@ def random_case(rng):
         if rng.random() < 0.5:
             ev.append(f"w:{rng.choice([125, 250, 1000])}")
         else:
-            held = rand_triple(rng)
+            held = triple()
             ev.append("r:%d:%d:%d" % held)
         if rng.random() < 0.2:
             ev.append(rng.choice(["t", "b"]))
+        if not tracking and rng.random() < 0.1:
+            ev.append("k:1")
     value, lo, hi = held
     r = rng.random()
     if r < 0.75 and lo <= hi and not (lo == hi == value):
@@ -94,6 +164,16 @@ def random_case(rng):
         v = rng.choice([max(lo - 1, 0), hi + 1, lo, hi])
     else:
         v = rng.randint(0, 300)
+    display = None
+    if tid in table:      # scaled row / switch: set() takes the display value, always
+        ds = table[tid].get(v)
+        if not ds:                                   # no display value is known for this raw value: take a neighbour
+            near = sorted(table[tid], key=lambda x: abs(x - v))[:1]
+            if near:
+                v = near[0]
+                ds = table[tid][v]
+        if ds:
+            display = rng.choice(ds)
     retries = rng.choice([0, 1, 1, 2, 2, 3, 3, 3, 5])
     T = rng.choice([1000, 2000, 2000, 5000])
     ev.append(f"c:{v}:{retries}:{T}")
@@ -104,12 +184,16 @@ def random_case(rng):
             ev.append("t")
         elif x < 0.37 and hold:
             ev.append("b")
-        elif x < 0.52:
+        elif x < 0.50:
             ev.append(f"w:{rng.choice([125, 250, 250, 500, 875, 1000, 3000])}")
+        elif x < 0.56:
+            ev.append("k:1")                          # the controller starts announcing versions during the call
         else:
             y = rng.random()
-            val = min(255, value if y < 0.45 else v if y < 0.75 else third if y < 0.95 else rng.randint(0, 254))
-            if rng.random() < 0.85:
+            val = min(tg.maxraw, value if y < 0.45 else v if y < 0.75 else third if y < 0.95 else rng.randint(0, 254))
+            if sched_switch:
+                trip = (val if val in (0, 1) else 1 - value if value in (0, 1) else 0, 0, 1)
+            elif rng.random() < 0.85:
                 trip = (val, lo, hi)
             else:
                 trip = (val, rng.randint(0, 100), rng.randint(0, 254))
@@ -121,7 +205,22 @@ def random_case(rng):
     if rng.random() < 0.1:
         ev.append(f"c:{rng.randint(0, 100)}:2:1000")   # a second call on the same run is ignored by the harness and the model
     via_device = T == 5000 and rng.random() < 0.5     # through Device.set(name, value, retries): default timeout
-    return mk_case(kind, tracking, hold, late, initial, start, ev, "random", via_device)
+    return mk_case(tid, tracking, hold, late, initial, start, ev, "random", via_device, display)
+
+
+def sweep_cases(table, tier):
+    """every display value of the table once: set(display) must transmit toRaw(display)"""
+    for tid in sorted(table):
+        tg = setm.target(tid)
+        n = 0
+        for raw in sorted(table[tid]):
+            for d in table[tid][raw]:
+                n += 1
+                if tier == "quick" and tg.size == 2 and n % 4:
+                    continue
+                held = (raw + 1) % (tg.maxraw + 1) if raw != 254 else 3
+                yield mk_case(tid, True, False, n % 2 == 1, (held, 0, tg.maxraw if tg.size == 2 else 255), 0,
+                              [f"c:{raw}:1:2000", "t"], "display-sweep", False, d)
 
 
 LETTERS = {
@@ -130,11 +229,12 @@ LETTERS = {
     "X": ["w:125", "r:77:0:100"],    # a third value
     "T": ["t"],                      # the retry timer expires ("nothing" = two adjacent timers)
     "B": ["b"],                      # held executor answers
+    "K": ["k:1"],                    # the controller starts announcing versions (tracking on from now)
 }
 
 
 def expand(word, retries):
-    ev = [f"c:42:{retries}:{T_EXH}"]
+    ev = [f"c:{EXH_RAW}:{retries}:{T_EXH}"]
     for ch in word:
         ev.extend(LETTERS[ch])
     return ev
@@ -144,7 +244,7 @@ def explore_config(args):
     """all words of the given length over the alphabet, in lexicographic order, skipping words that
     only differ after set() has returned (they share the prefix up to the return).
     -> list of (case, impl string, groups)"""
-    kind, tracking, hold, retries, length, alphabet = args
+    kind, tracking, hold, retries, length, alphabet, display = args
     out = []
     counter = [0]
 
@@ -165,7 +265,7 @@ def explore_config(args):
         if len(prefix) == length:
             late = counter[0] % 2 == 1
             counter[0] += 1
-            c = mk_case(kind, tracking, hold, late, (10, 0, 100), 0, expand(prefix, retries), "exhaustive")
+            c = mk_case(kind, tracking, hold, late, (10, 0, 100), 0, expand(prefix, retries), "exhaustive", False, display)
             c["word"] = prefix
             groups, now, loc = run_impl(c)
             out.append((c, impl_string(groups, now, loc), groups))
@@ -180,21 +280,39 @@ def explore_config(args):
     return out
 
 
-def exhaustive_configs(tier):
+def exhaustive_configs(tier, table):
+    """(target, tracking, hold, retries, word length, alphabet, display value for the requested raw value)"""
+    def disp(tid):
+        return (table.get(tid, {}).get(EXH_RAW) or [None])[0]
+
+    variety = ("ecomax:88", "mixer0:6", "thermostat1:1", "schedule:heating_circulation:p")
     cfgs = []
     if tier == "thorough":
-        for kind in setm.KINDS:
+        for tid in setm.BASE_TARGETS:
             for tracking in (False, True):
                 for retries in range(4):
-                    cfgs.append((kind, tracking, False, retries, EXH_LEN, "SCXT"))
-                    cfgs.append((kind, tracking, True, retries, EXH_LEN_HOLD, "SCXTB"))
+                    cfgs.append((tid, tracking, False, retries, EXH_LEN, "SCXT", None))
+                    cfgs.append((tid, tracking, True, retries, EXH_LEN_HOLD, "SCXTB", None))
+        for tid in variety:      # other addresses / scaled rows, called with the display value
+            for tracking in (False, True):
+                for retries in range(4):
+                    cfgs.append((tid, tracking, False, retries, EXH_LEN - 1, "SCXT", disp(tid)))
+                    cfgs.append((tid, tracking, True, retries, EXH_LEN_HOLD - 1, "SCXTB", disp(tid)))
+        for tid in ("ecomax", "mixer1:0"):   # tracking switched on at every position of the history
+            for retries in range(4):
+                cfgs.append((tid, False, False, retries, EXH_LEN - 1, "SCXTK", None))
+                cfgs.append((tid, False, True, retries, EXH_LEN_HOLD - 1, "SCXTBK", None))
     else:
-        for kind in setm.KINDS:
+        for tid in setm.BASE_TARGETS:
             for tracking in (False, True):
                 for retries in range(4):
-                    cfgs.append((kind, tracking, False, retries, 4, "SCXT"))
+                    cfgs.append((tid, tracking, False, retries, 4, "SCXT", None))
         for retries in range(4):
-            cfgs.append(("ecomax", False, True, retries, 4, "SCXTB"))
+            cfgs.append(("ecomax", False, True, retries, 4, "SCXTB", None))
+            cfgs.append(("ecomax:88", retries % 2 == 0, False, retries, 4, "SCXT", disp("ecomax:88")))
+            cfgs.append(("schedule:mixer_10:p", retries % 2 == 1, False, retries, 4, "SCXT", None))
+            cfgs.append(("ecomax", False, False, retries, 4, "SCXTK", None))
+            cfgs.append(("thermostat1:1", False, True, retries, 3, "SCXTBK", disp("thermostat1:1")))
     return cfgs
 
 
@@ -215,7 +333,11 @@ def check_cases(res, triples):
         ntx = sum(1 for g in groups for o in g if o[0] == "S")
         res.case((c["kind"], c["tracking"], c["hold"], c["late"], tuple(c["initial"]), c["start"], tuple(c["events"])),
                  nontrivial=ntx > 0)
-        res.count("kind:" + c["kind"])
+        res.count("kind:" + setm.target(c["kind"]).kind)
+        res.count("target:" + c["kind"])
+        res.count("called with:" + ("raw value" if c.get("display") is None else "display value (" + type(c["display"]).__name__ + ")"))
+        if any(e == "k:1" for e in c["events"]):
+            res.count("tracking switched on during the run")
         res.count("tracking:%d hold:%d" % (c["tracking"], c["hold"]))
         res.count("late:%d" % c["late"])
         res.count("entry:" + ("Device.set" if c.get("via_device") else "Parameter.set"))
@@ -227,6 +349,7 @@ def check_cases(res, triples):
             res.count("retries:" + call[0].split(":")[2])
         inp = {k: c[k] for k in ("kind", "tracking", "hold", "late", "initial", "start", "events", "label")}
         inp["via_device"] = c.get("via_device", False)
+        inp["display"] = c.get("display")
         bad_x = [o for g in groups for o in g if o[0] == "X"]
         if bad_x:
             res.fail("spec", inp, m, impl, f"unexpected frame / exception / malformed set request: {bad_x[:3]}")
@@ -242,9 +365,12 @@ def run(ctx):
     rng = random.Random(ctx["seed"] * 104729 + 8)
     tier = ctx["tier"]
     res = Result("C08")
-    res.rule = ("case = parameter kind x version tracking x executor held/synchronous x late/immediate encoding x "
+    res.rule = ("case = parameter (4 base + 16 other addresses: other index, second mixer/thermostat, scaled and 2-byte rows, "
+                "schedules whose name extends another's, switches) x called with raw or display value (raw = Lean toRaw) x "
+                "version tracking on / off / switched on during the run x executor held/synchronous x late/immediate encoding x "
                 "initial triple x start clock x history of {set call, stale / confirming / third-value / range-changing "
-                "reports, clock advances, timer expiries, executor answers}; corpus first; random histories; exhaustive words over "
+                "reports, clock advances, timer expiries, executor answers, frame-version announcements}; corpus first; random histories; "
+                "display sweep (every display value of the scaled rows once); exhaustive words over "
                 "{stale, confirming, third, timer[, built]} after a call (retries 0..3), pruned only after set() returned. "
                 "distinct = distinct (config, history); non-trivial = at least one set request was transmitted")
     triples = []
@@ -256,8 +382,10 @@ def run(ctx):
     n = QUICK_RANDOM if tier == "quick" else THOROUGH_RANDOM
     if ctx.get("max_cases"):
         n = min(n, ctx["max_cases"])
-    cases = [random_case(rng) for _ in range(n)]
-    cfgs = exhaustive_configs(tier)
+    table = display_table()
+    cases = [random_case(rng, table) for _ in range(n)]
+    cases.extend(sweep_cases(table, tier))
+    cfgs = exhaustive_configs(tier, table)
     workers = min(8, os.cpu_count() or 1) if tier == "thorough" else min(4, os.cpu_count() or 1)
     if workers > 1:
         with multiprocessing.get_context("fork").Pool(workers) as pool:
@@ -277,9 +405,11 @@ def run(ctx):
     res.exhaustive = tier == "thorough"
     res.extra["exhaustive_words"] = nexh
     res.extra["exhaustive_bounds"] = (
-        f"thorough: all words of length {EXH_LEN} over {{S,C,X,T}} (synchronous executor) and of length {EXH_LEN_HOLD} over "
-        f"{{S,C,X,T,B}} (held executor) x 4 kinds x tracking on/off x retries 0..3, timeout {T_EXH} ms, reports 125 ms apart; "
-        "quick: length 4")
+        f"thorough: 4 base parameters x tracking on/off x retries 0..3: all words of length {EXH_LEN} over {{S,C,X,T}} (synchronous "
+        f"executor) and {EXH_LEN_HOLD} over {{S,C,X,T,B}} (held); 4 other addresses (scaled row called with the display value, offset row, "
+        f"2-byte row on thermostat 1, schedule 'heating_circulation'): lengths {EXH_LEN - 1} / {EXH_LEN_HOLD - 1}; tracking switched on at "
+        f"every position (letter K) for 2 parameters: lengths {EXH_LEN - 1} / {EXH_LEN_HOLD - 1}; timeout {T_EXH} ms, reports 125 ms apart; "
+        "quick: length 4 (3 with K and held executor)")
     res.notes.append("'nothing' (request lost, no report) is the absence of a report between two timer letters")
     return res
 
